@@ -238,3 +238,26 @@ Definition check_hosts (c : hosts_case) : N :=
     Bool.eqb has mhas && (if has then score =? mscore else true) &&
     (if (scen =? 7)%N then true else Bool.eqb has_after mhas_after) in
   code agree_model (hosts_spec scen o has score has_after).
+
+(* ---------------- (D) sync RPC handlers (pkg/consensus/sync) on a loopback node *)
+(* malformed request?, [connected_before; every request answered; banned_after; connected_after], score entry, score *)
+Definition sync_case : Type := (bool * list bool * bool * Z)%type.
+
+Definition sync_model (malformed : bool) : node :=
+  let n0 := mkNode (empty_gater 3600) [(B, IP)] in
+  if malformed then ban_peer_id n0 B 1000 else n0.
+
+Definition check_sync (c : sync_case) : N :=
+  let '(malformed, o, has, score) := c in
+  let n := sync_model malformed in
+  let mo := [true; negb malformed; banned (gt n) IP; connected n B] in
+  let agree_model :=
+    beq_list Bool.eqb (if malformed then [nth 0 o false; false; nth 2 o false; nth 3 o false] else o) mo &&
+    Bool.eqb has (match sc (gt n) IP with Some _ => true | None => false end) &&
+    (if has then score =? score_of (gt n) IP else true) in
+  (* oracle: an invalid sync request leads to the ban (score >= threshold, disconnected); a well-formed one is answered and
+     never penalised *)
+  let spec :=
+    if malformed then nth 0 o false && nth 2 o false && negb (nth 3 o true) && has && (max_penalty <=? score)
+    else beq_list Bool.eqb o [true; true; false; true] && negb has in
+  code agree_model spec.
